@@ -55,6 +55,7 @@ type Sess struct {
 	Idx     int
 	Foreign int // snapshot changes that reached this session from another party since its last probe
 	Bulk    int // releases of two or more held-back updates at once (several updates processed between two flushes)
+	Passive bool // an observer: it only issues commands that change nothing (NOOP, CHECK, STATUS, SEARCH, FETCH of FLAGS / BODY.PEEK, IDLE, SELECT)
 }
 
 type Config struct {
@@ -63,6 +64,7 @@ type Config struct {
 	Opts          bed.Options
 	Deterministic bool // gates closed, barrier after every release
 	Prefill       int  // up to this many messages per mailbox are created (through the connector) before the sessions select
+	NPassive      int  // the first NPassive sessions are passive observers
 }
 
 type World struct {
@@ -108,7 +110,7 @@ func NewWorld(t *rapid.T, cfg Config) *World {
 			s.GateClose()
 		}
 
-		w.S = append(w.S, &Sess{Session: s, Idx: i})
+		w.S = append(w.S, &Sess{Session: s, Idx: i, Passive: i < cfg.NPassive})
 	}
 
 	for _, box := range cfg.Boxes {
@@ -152,12 +154,38 @@ func (w *World) Free() []*Sess {
 	return res
 }
 
-// FreeSelected returns free sessions with a selected mailbox (optionally read-write only).
-func (w *World) FreeSelected(rw bool) []*Sess {
+// FreeSelected returns free sessions with a selected mailbox; mutating=true leaves out read-only and passive ones.
+func (w *World) FreeSelected(mutating bool) []*Sess {
 	var res []*Sess
 
 	for _, s := range w.Free() {
-		if s.Selected != "" && (!rw || !s.ReadOnly) {
+		if s.Selected != "" && (!mutating || (!s.ReadOnly && !s.Passive)) {
+			res = append(res, s)
+		}
+	}
+
+	return res
+}
+
+// Actors returns the free sessions that may change things.
+func (w *World) Actors() []*Sess {
+	var res []*Sess
+
+	for _, s := range w.Free() {
+		if !s.Passive {
+			res = append(res, s)
+		}
+	}
+
+	return res
+}
+
+// ActorsSelected returns the free, selected, non-passive sessions (they may be read-only: COPY is allowed there).
+func (w *World) ActorsSelected() []*Sess {
+	var res []*Sess
+
+	for _, s := range w.FreeSelected(false) {
+		if !s.Passive {
 			res = append(res, s)
 		}
 	}
@@ -268,12 +296,40 @@ func (r *Range) Prefix() string {
 // away from it: before a session adds messages to its own selected mailbox, everything held back for it is released.
 const KfLateLowerUID = "C01-late-lower-uid"
 
-func (w *World) steerOwnAdd(s *Sess, dst string) {
-	if !w.Cfg.Deterministic || s.Selected == "" || !strings.EqualFold(dst, s.Selected) || s.Held() == 0 {
+// KfStaleAfterSelect is the id of the listed finding "updates queued for a session before its SELECT/EXAMINE are
+// applied to the snapshot taken by that SELECT" (a message the snapshot no longer holds is re-added as a ghost).
+const KfStaleAfterSelect = "C02-stale-update-after-select"
+
+// SteerSelect is called before a SELECT/EXAMINE: while the finding is listed, nothing may be queued for the session
+// (held back by the gate, or - gate open - still unprocessed in its queue) when the snapshot is taken.
+func (w *World) SteerSelect(s *Sess) {
+	if !kf.Listed(KfStaleAfterSelect) {
 		return
 	}
 
-	if kf.Listed(KfLateLowerUID) {
+	if w.Cfg.Deterministic {
+		if s.Held() > 0 {
+			ev.Excluded(1)
+			w.Release(s, -1)
+		}
+
+		return
+	}
+
+	w.Barrier()
+}
+
+func (w *World) steerOwnAdd(s *Sess, dst string) {
+	if s.Selected == "" || !strings.EqualFold(dst, s.Selected) || !kf.Listed(KfLateLowerUID) {
+		return
+	}
+
+	if !w.Cfg.Deterministic {
+		w.Barrier() // gate open: let the session process what is already queued for it
+		return
+	}
+
+	if s.Held() > 0 {
 		ev.Excluded(1)
 		w.Release(s, -1)
 	}
@@ -376,7 +432,12 @@ func (w *World) Fetch(t *rapid.T, s *Sess) *imapc.Result {
 		t.Skip("empty view")
 	}
 
-	item := pick(t, "fitem", []string{"BODY[]", "BODY.PEEK[]", "(FLAGS)", "(UID FLAGS)", "RFC822", "BODY[TEXT]", "ENVELOPE"})
+	items := []string{"BODY[]", "BODY.PEEK[]", "(FLAGS)", "(UID FLAGS)", "RFC822", "BODY[TEXT]", "ENVELOPE"}
+	if s.Passive {
+		items = []string{"BODY.PEEK[]", "(FLAGS)", "(UID FLAGS)", "ENVELOPE", "BODY.PEEK[TEXT]", "RFC822.SIZE"}
+	}
+
+	item := pick(t, "fitem", items)
 	w.Label("op:fetch")
 
 	if item == "BODY[]" || item == "RFC822" || item == "BODY[TEXT]" {
@@ -413,12 +474,7 @@ func (w *World) Reselect(t *rapid.T, s *Sess) *imapc.Result {
 	examine := rapid.IntRange(0, 4).Draw(t, "examine") == 0
 	w.Label("op:select")
 
-	// updates queued before a SELECT are applied to the new snapshot afterwards; stale additions then arrive as
-	// late lower UIDs (same listed finding)
-	if w.Cfg.Deterministic && s.Held() > 0 && kf.Listed(KfLateLowerUID) {
-		ev.Excluded(1)
-		w.Release(s, -1)
-	}
+	w.SteerSelect(s)
 
 	return s.Select(box, examine)
 }
@@ -726,6 +782,30 @@ func (w *World) QuiescentDiff(s *Sess) (string, error) {
 	return "", nil
 }
 
+// QuiescentUIDDiff is QuiescentDiff restricted to membership and order (UIDs), ignoring flags.
+func (w *World) QuiescentUIDDiff(s *Sess) (string, error) {
+	view, err := w.View(s)
+	if err != nil {
+		return "", err
+	}
+
+	fresh, _, _, ok, err := w.Fresh(s.Selected, false)
+	if err != nil {
+		return "", err
+	}
+
+	if !ok {
+		return fmt.Sprintf("mailbox %s cannot be examined by a new session", s.Selected), nil
+	}
+
+	a, b := uidsOf(view), freshUIDs(fresh)
+	if fmt.Sprint(a) != fmt.Sprint(b) {
+		return fmt.Sprintf("session %s sees UIDs %v, a new session sees %v", s.Name, a, b), nil
+	}
+
+	return "", nil
+}
+
 func uidsOf(v []bed.PMsg) []uint32 {
 	r := make([]uint32, len(v))
 	for i, m := range v {
@@ -742,4 +822,20 @@ func freshUIDs(v []FreshMsg) []uint32 {
 	}
 
 	return r
+}
+
+// SelectAll lets every session select a drawn mailbox (read-only with probability 1/roOneIn, never if 0).
+func (w *World) SelectAll(t *rapid.T, rec *Rec, roOneIn int) {
+	for _, s := range w.S {
+		box := w.PickBox(t)
+		ro := roOneIn > 0 && rapid.IntRange(1, roOneIn).Draw(t, "ro") == 1
+
+		w.SteerSelect(s)
+
+		if r := s.Select(box, ro); !r.OK() {
+			t.Fatalf("select: %v", r)
+		}
+
+		rec.Op("%s select %s ro=%v", s.Name, box, ro)
+	}
 }
